@@ -451,6 +451,18 @@ func (o progObj) Greeting() string      { return "hi " + o.Name }
 func (o progObj) Hello(s string) string { return "hello " + s }
 func (o *progObj) PtrMethod() string    { return "ptr" }
 
+// the same name carries values of different Go types in different contexts
+// (struct with methods, map with the same keys, pointer to struct)
+func progObjVariant(variant int) any {
+	switch variant % 4 {
+	case 1:
+		return map[string]any{"Name": "M" + fmt.Sprint(variant), "Count": variant, "Greeting": "map-greeting", "Hello": "map-hello"}
+	case 3:
+		return &progObj{Name: "P" + fmt.Sprint(variant), Count: -variant}
+	}
+	return progObj{Name: "O" + fmt.Sprint(variant), Count: variant, Tags: []string{"t1", "t2"}}
+}
+
 var errInjected = errors.New("injected fault")
 
 type tickState struct {
@@ -482,7 +494,7 @@ func progContext(variant int, ts *tickState) pongo2.Context {
 		"title":     "the quick brown fox",
 		"empty":     "",
 		"html":      "<i>x</i> & 'y'",
-		"obj":       progObj{Name: "O" + fmt.Sprint(variant), Count: variant, Tags: []string{"t1", "t2"}},
+		"obj":       progObjVariant(variant),
 		"pobj":      &progObj{Name: "P"},
 		"m":         map[string]any{"a": 1, "b": "two", "c": []int{1, 2}},
 		"counts":    map[string]int{"x": 1, "y": variant, "z": 3},
